@@ -720,7 +720,16 @@ def evaluate(chk, cases, name, record=True):
 
 def report(chk, rows):
     stats = {}
+    # block-encoding verdicts per case: USelect's index convention is only fixed by its consistency with Uprep
+    block_ok = {}
     for fn, spec, label, status, detail, e in rows:
+        if fn == "uprep_uselect" and label.startswith("block"):
+            block_ok[id(spec)] = block_ok.get(id(spec), True) and status == "ok"
+    for fn, spec, label, status, detail, e in rows:
+        if fn == "uprep_uselect" and label == "uselect" and status == "bad" and detail == "wrong-unitary" and block_ok.get(id(spec)):
+            chk.spec_drift("get_uprep_uselect: USelect differs from the model's index convention but the block encoding "
+                           "Uprep^+ USelect Uprep = -H/alpha holds (%s)" % (spec,))
+            continue
         s = stats.setdefault(fn + ":" + label, {"ok": 0, "bad": 0, "exception": 0, "offgrid": 0})
         s[status] += 1
         if status == "offgrid":
@@ -981,6 +990,78 @@ def mp_numeric(chk, coefs, rng):
              oracle="dense numpy evaluation of the recorded circuit vs OAA of sum_j a_j S2^k_j with TLC's exact a_j; tolerance 1e-9")
 
 
+def dense_unitary(gates, n):
+    U = np.zeros((1 << n, 1 << n), dtype=complex)
+    for x in range(1 << n):
+        v = np.zeros(1 << n, dtype=complex)
+        v[x] = 1
+        U[:, x] = dense_run(gates, n, v)
+    return U
+
+
+def givens_tail(chk, rng):
+    """NUMERIC TAIL: (a) bogoliubov_transform(W): the Givens network G is the single-particle basis change
+    G^+ n_k G = sum_pq W[k,p] conj(W[k,q]) a_p^+ a_q for every unitary W (real, complex, permutation-like);
+    (b) get_orbital_rotations(molecule): sum_r G_r^+ D_r G_r = JW(H) as an operator identity."""
+    from scipy.stats import unitary_group
+    from openfermion import FermionOperator as FO, get_sparse_operator
+    from tangelo.toolboxes.circuits.diagonal_coulomb import bogoliubov_transform, get_orbital_rotations
+    worst, ncase = 0.0, 0
+    for n in ((2, 3) if chk.quick else (2, 3, 4, 5)):
+        for kind in ("complex", "real", "perm-phase", "identity"):
+            sd = rng.randrange(10 ** 6)
+            if kind == "complex":
+                W = unitary_group.rvs(n, random_state=sd)
+            elif kind == "real":
+                W = np.linalg.qr(np.random.RandomState(sd).randn(n, n))[0].astype(complex)
+            elif kind == "perm-phase":
+                perm = list(range(n))
+                random.Random(sd).shuffle(perm)
+                W = np.zeros((n, n), dtype=complex)
+                for a, b in enumerate(perm):
+                    W[a, b] = np.exp(1j * (0.3 + a))
+            else:
+                W = np.eye(n, dtype=complex)
+            case = {"fn": "givens", "spec": {"n": n, "kind": kind, "seed": sd}}
+            try:
+                G = dense_unitary(bogoliubov_transform(W.copy()), n)
+            except Exception as e:
+                chk.violation("givens:exception:%s" % kind, "%s: %s" % (type(e).__name__, e), case)
+                continue
+            err = 0.0
+            for k in range(n):
+                nk = get_sparse_operator(FO(((k, 1), (k, 0))), n_qubits=n).toarray()
+                op = FO()
+                for p_ in range(n):
+                    for q_ in range(n):
+                        op += FO(((p_, 1), (q_, 0)), W[k, p_] * np.conj(W[k, q_]))
+                err = max(err, float(np.max(np.abs(G.conj().T @ nk @ G - get_sparse_operator(op, n_qubits=n).toarray()))))
+            ncase += 1
+            worst = max(worst, err)
+            if err > 1e-8:
+                chk.violation("givens:basis-change:%s" % kind, "NUMERIC TAIL: bogoliubov_transform(W) (%d modes, %s W): G^+ n_k G differs from the "
+                              "rotated number operator by %.3g" % (n, kind, err), case)
+    from tangelo.molecule_library import mol_H2_sto3g, mol_H4_sto3g
+    from tangelo.toolboxes.qubit_mappings.mapping_transform import fermion_to_qubit_mapping
+    for name, mol in [("H2", mol_H2_sto3g)] + ([] if chk.quick else [("H4", mol_H4_sto3g)]):
+        case = {"fn": "givens_mol", "spec": {"molecule": name}}
+        nq = mol.n_active_sos
+        rots = get_orbital_rotations(mol)
+        Hq = fermion_to_qubit_mapping(mol.fermionic_hamiltonian, "JW", up_then_down=False)
+        H = op_matrix(Hq, nq)
+        S = np.zeros_like(H)
+        for r in range(rots.n_rotations):
+            G = dense_unitary(list(rots.rotation_gates[r]), nq)
+            S = S + G.conj().T @ op_matrix(rots.qubit_operators[r], nq) @ G
+        err = float(np.max(np.abs(S - H)))
+        ncase += 1
+        worst = max(worst, err)
+        if err > 1e-7:
+            chk.violation("givens:hamiltonian-identity:%s" % name, "NUMERIC TAIL: sum_r G_r^+ D_r G_r differs from JW(H) of %s by %.3g" % (name, err), case)
+    chk.part("numeric_tail_givens_NOT_model_checked", cases=ncase, worst_error=worst,
+             oracle="dense numpy evaluation of the Givens network vs openfermion sparse operators; tolerance 1e-8")
+
+
 def negative_controls(jobs):
     """Corrupt one recorded / claimed field per job kind: the trace spec must reject."""
     ctl = []
@@ -1037,6 +1118,7 @@ def run(chk):
     clock_machine(chk, random.Random(chk.seed + 1))
     coefs = mp_coefficients(chk)
     mp_numeric(chk, coefs, random.Random(chk.seed + 2))
+    givens_tail(chk, random.Random(chk.seed + 3))
     cases = lcu_cases(chk, rng) + other_cases(chk, rng)
     rows, jobs, verdicts, results = evaluate(chk, cases, "x07/v")
     for r in results:
@@ -1060,6 +1142,11 @@ def replay(chk, rec):
     if fn in ("mp_coef", "mp_numeric"):
         coefs = mp_coefficients(c2)
         mp_numeric(c2, coefs, random.Random(2))
+        for k, d, _ in c2.violations:
+            print("  %s  %s" % (k, d[:300]))
+        return not c2.violations
+    if fn in ("givens", "givens_mol"):
+        givens_tail(c2, random.Random(chk.seed + 3))
         for k, d, _ in c2.violations:
             print("  %s  %s" % (k, d[:300]))
         return not c2.violations
